@@ -229,9 +229,15 @@ let tr_replay toks =
     let ((r, rho), acc) = tr_step_info fops le f s in
     let s' = tr_step fops le 0.99 f fd s in
     let trial = List.map2 ( +. ) s.tr_pt r.cg_step in
-    let dout = Printf.sprintf "pt=%s val=%s delta=%s exit=%s iters=%d pred=%s rho=%s acc=%d sol=%s trial=%s"
+    (* the same step with the coordinates in reverse order: the same problem, every sum of the model accumulated in the
+       opposite order.  [spread] = how far the CG step moves under a change of the summation order alone *)
+    let sr = { s with tr_pt = List.rev s.tr_pt; tr_grad = List.rev s.tr_grad; tr_hess = List.rev (List.map List.rev s.tr_hess) } in
+    let rr = tr_solve fops le sr in
+    let spread = List.fold_left2 (fun a x y -> Float.max a (Float.abs (x -. y))) 0.0 r.cg_step (List.rev rr.cg_step) in
+    let dout = Printf.sprintf "pt=%s val=%s delta=%s exit=%s iters=%d pred=%s rho=%s acc=%d sol=%s trial=%s spread=%s rexit=%s riters=%d"
         (fv_str s'.tr_pt) (f_str s'.tr_val) (f_str s'.tr_delta) (tr_exit_name (int_of_nat r.cg_exit)) (int_of_nat r.cg_iters)
-        (f_str r.cg_pred) (f_str rho) (if acc then 1 else 0) (fv_str r.cg_step) (fv_str trial) in
+        (f_str r.cg_pred) (f_str rho) (if acc then 1 else 0) (fv_str r.cg_step) (fv_str trial) (f_str spread)
+        (tr_exit_name (int_of_nat rr.cg_exit)) (int_of_nat rr.cg_iters) in
     if rat <> "1" || kind <> "quad" then dout ^ " q=-" else begin
       let qv = List.map (fun t -> q_of_float (fnum t)) in
       let a = chunk n (qv al) and b = qv bl in
